@@ -78,18 +78,15 @@ def refStop (dim : Nat) (v : Int) (masked : Bool) : Int :=
   let s := if v < 0 then v + dim else v
   if s < 0 then 0 else if s > dim then dim else s
 
-/-- the same without the clamp: what is right whenever the value addresses an element of the dimension -/
-def rawIndex (dim : Nat) (v : Int) : Int := if v < 0 then v + dim else v
-
 /-- per input dimension the start (or stop) that the slice specification gives it, written as a recursion over the
     dimensions: positions whose `new_axis_mask` bit is set are skipped, dimensions beyond the specification are taken in full.
-    `unclamped`: the value `rawIndex` without the reference's clamp. -/
-def specOffsets (mask newAxis : Nat) (isBegin : Bool) : List Nat → List Int → Nat → List Int
+    The value is `sliceVal` of the ADDRESSED dimension. -/
+def specOffsets (clampV : Bool) (mask newAxis : Nat) (isBegin : Bool) : List Nat → List Int → Nat → List Int
   | dims, [], _ => dims.map fun (d : Nat) => if isBegin then (0 : Int) else ((d : Nat) : Int)
   | [], _ :: _, _ => []
   | d :: ds, v :: vs, spec =>
-    if bit newAxis spec then specOffsets mask newAxis isBegin (d :: ds) vs (spec + 1)
-    else (if bit mask spec then (if isBegin then 0 else (d : Int)) else rawIndex d v) :: specOffsets mask newAxis isBegin ds vs (spec + 1)
+    if bit newAxis spec then specOffsets clampV mask newAxis isBegin (d :: ds) vs (spec + 1)
+    else (if bit mask spec then (if isBegin then 0 else (d : Int)) else sliceVal clampV d v) :: specOffsets clampV mask newAxis isBegin ds vs (spec + 1)
 
 /-- the clamped reference values, same recursion -/
 def refOffsets (mask newAxis : Nat) (isBegin : Bool) : List Nat → List Int → Nat → List Int
